@@ -154,6 +154,13 @@ Proof.
   - (* SGpPair *) destruct ops as [|[] [|[] r]]; try discriminate.
     match type of H with (if ?c then _ else _) = _ => destruct c eqn:E; inversion H; subst end.
     repeat (apply andb_prop in E; destruct E as [E ?]). b2p. fin. change (2 ^ 5) with 32. lia.
+  - (* SImmRsub *) destruct ops as [|[] r]; try discriminate.
+    destruct ((lo <=? v) && (v <=? hi)) eqn:E; inversion H; subst. b2p. fin. lia.
+  - (* SFpImm *) destruct ops as [|[] r]; try discriminate. cbv zeta in H.
+    match type of H with (if ?c then _ else _) = _ => destruct c eqn:E; inversion H; subst end.
+    repeat (apply andb_prop in E; destruct E as [E ?]).
+    repeat match goal with X : (_ <=? _) = true |- _ => apply Z.leb_le in X | X : (_ <? _) = true |- _ => apply Z.ltb_lt in X end.
+    fin; [change (2 ^ 3) with 8 | change (2 ^ 5) with 32]; Z.div_mod_to_equations; lia.
 Qed.
 
 Lemma bind_range : forall ss ops e, forallb syn_wf ss = true -> bind ss ops = Some e -> env_ok e (flat_map syn_fields ss).
